@@ -166,6 +166,22 @@ def expected(data_lv, comps, bidx):
     return arr[..., comps]
 
 
+def matches(val, data_lv, comps, boxes):
+    """(value is exactly the stored data of comps x boxes, shape description)"""
+    try:
+        if isinstance(boxes, int):
+            ok = isinstance(val, np.ndarray) and refparse.biteq(val, expected(data_lv, comps, boxes))
+            shp = getattr(val, "shape", None)
+        else:
+            ok = (isinstance(val, (list, tuple)) and len(val) == len(boxes) and
+                  all(isinstance(v, np.ndarray) and refparse.biteq(v, expected(data_lv, comps, b))
+                      for v, b in zip(val, boxes)))
+            shp = [getattr(v, "shape", None) for v in val][:3] if isinstance(val, (list, tuple)) else type(val).__name__
+    except Exception as e:
+        ok, shp = False, f"uncomparable result ({type(e).__name__})"
+    return ok, shp
+
+
 def judge(rec, outcome, data_lv, comps, boxes, f_supported, b_supported, key, nontrivial, descr):
     """outcome = ('exc', name) | ('val', value)"""
     supported = f_supported and b_supported
@@ -184,17 +200,7 @@ def judge(rec, outcome, data_lv, comps, boxes, f_supported, b_supported, key, no
         rec.violation(f"selection that cannot be honoured returned a value instead of raising: {descr}",
                       key=key, witness={"selection": descr, "returned": type(val).__name__})
         return
-    try:
-        if isinstance(boxes, int):
-            ok = isinstance(val, np.ndarray) and refparse.biteq(val, expected(data_lv, comps, boxes))
-            shp = getattr(val, "shape", None)
-        else:
-            ok = (isinstance(val, (list, tuple)) and len(val) == len(boxes) and
-                  all(isinstance(v, np.ndarray) and refparse.biteq(v, expected(data_lv, comps, b))
-                      for v, b in zip(val, boxes)))
-            shp = [getattr(v, "shape", None) for v in val][:3] if isinstance(val, (list, tuple)) else type(val).__name__
-    except Exception as e:
-        ok, shp = False, f"uncomparable result ({type(e).__name__})"
+    ok, shp = matches(val, data_lv, comps, boxes)
     if ok:
         rec.count("forms:supported_ok" if supported else "forms:unsupported_right")
         rec.ok(key, nontrivial)
@@ -204,6 +210,9 @@ def judge(rec, outcome, data_lv, comps, boxes, f_supported, b_supported, key, no
                       f"fields/boxes: {descr}", key=key,
                       witness={"selection": descr, "got_shape": str(shp),
                                "expected_shape": str(np.shape(expected(data_lv, comps, boxes if isinstance(boxes, int) else boxes[0])) if boxes != [] else None)})
+
+
+judge_one = judge
 
 
 def setup():
@@ -270,6 +279,14 @@ def run_case(case, work, rec):
         except Exception as e:
             return ("exc", type(e).__name__)
 
+    kept = []       # results held while later selections run: they must not change afterwards
+
+    def judge(rec, outcome, data_lv, comps, boxes, fsup, bsup, key, nt, descr):
+        judge_one(rec, outcome, data_lv, comps, boxes, fsup, bsup, key, nt, descr)
+        if outcome[0] == "val" and comps is not None and boxes is not None and (len(kept) < 24 or rng.random() < 0.02):
+            if matches(outcome[1], data_lv, comps, boxes)[0]:
+                kept.append((outcome[1], data_lv, comps, boxes, descr, key))
+
     def nontriv(comps, boxes, lv):
         if comps is None or boxes is None or nf < 2:
             return False
@@ -319,6 +336,12 @@ def run_case(case, work, rec):
         judge(rec, out, data[exp_lv] if exp_lv is not None else None, 0 if exp_lv is not None else None,
               0 if exp_lv is not None else None, True, False, (digest, "lv", str(lvsel)), False,
               f"[int:0][level {lvsel!r}][int:0]")
+    # (4) results returned earlier still hold the stored data (no aliasing of a buffer a later read reuses)
+    for val, data_lv, comps, boxes, descr, key in kept:
+        rec.count("results_rechecked_later")
+        if not matches(val, data_lv, comps, boxes)[0]:
+            rec.violation(f"a result returned earlier changed while later selections were read: {descr}",
+                          key=key + ("later",), witness={"selection": descr})
     # monitors: contracts evaluated in this case, pool log
     for k, v in contracts.COUNTS.items():
         rec.count("calls:" + k, v - n0.get(k, 0))
